@@ -113,7 +113,12 @@ func (v *Vue) evalSlot(ctx VueContext, node *html.Node, slotScope *SlotScope) ([
 				defer ctx.stack.Pop()
 
 				// If there's a scoped variable name, use it; otherwise use the props directly
-				if scopedVarName != "" {
+				if names, ok := destructuredSlotProps(scopedVarName); ok {
+					// v-slot="{ item, index }": each listed prop under its own name
+					for _, name := range names {
+						ctx.stack.Set(name, slotProps[name])
+					}
+				} else if scopedVarName != "" {
 					ctx.stack.Set(scopedVarName, slotProps)
 				} else {
 					// Set the slot props directly in the context
@@ -165,4 +170,20 @@ func (v *Vue) evalSlot(ctx VueContext, node *html.Node, slotScope *SlotScope) ([
 	}
 
 	return []*html.Node{}, nil
+}
+
+// destructuredSlotProps recognises the destructuring form of a slot's scoped variable,
+// v-slot="{ item, index }", and returns the prop names it lists.
+func destructuredSlotProps(scopedVar string) ([]string, bool) {
+	scopedVar = strings.TrimSpace(scopedVar)
+	if len(scopedVar) < 2 || scopedVar[0] != '{' || scopedVar[len(scopedVar)-1] != '}' {
+		return nil, false
+	}
+	var names []string
+	for _, name := range strings.Split(scopedVar[1:len(scopedVar)-1], ",") {
+		if name = strings.TrimSpace(name); name != "" {
+			names = append(names, name)
+		}
+	}
+	return names, true
 }
